@@ -80,7 +80,13 @@ META = {
         "(or a cursor below it) or the container of a nested parse, a child list that is counted, unpacked, classified by "
         "all/any(isinstance...) or indexed-and-classified is filtered for system_message (or names it in the classification); "
         "(d) nothing reachable from _render_finalise appends a message node to the document root (docutils promotes a lone section "
-        "to the document title only if it is the root's sole child)."
+        "to the document title only if it is the root's sole child); (e) because docutils' DocTitle sets document['title'] = "
+        "document[0].astext() (re-read from the installed docutils), the docutils front end's get_transforms lists a transform "
+        "that runs after DocTitle and stores the title text of a copy without system_message nodes. Two shapes are decided as "
+        "suppression-invariant: an astext() that is only compared (==/!=) with document['title'] of the same root whose first "
+        "child it reads (both sides carry the same text in either run), and a len(X) that is only the emptiness guard of "
+        "isinstance(X[k], <non-message classes>) in the same `and` (message nodes alone fail the class test as the empty list "
+        "fails the guard)."
     ),
     "not_decided": (
         "consumers of rendered content outside the shapes of R8 (e.g. a third-party transform that reads astext() of a title, a "
@@ -2694,6 +2700,97 @@ def _only_rawsource(fi: FunctionInfo, call: ast.Call) -> bool:
     return False
 
 
+def _doctitle_fact(corpus: Corpus) -> bool:
+    """Sibling fact, re-read from the installed docutils: DocTitle sets ``document['title'] = document[0].astext()``
+    (the text of the promoted title, message nodes included)."""
+
+    def make() -> bool:
+        try:
+            m = corpus.sibling_module("docutils.transforms.frontmatter")
+        except Exception:
+            m = None
+        if m is None:
+            return False
+        for n in ast.walk(m.tree):
+            if isinstance(n, ast.Assign) and len(n.targets) == 1 and isinstance(n.targets[0], ast.Subscript) and is_const(n.targets[0].slice, "title") and unparse(n.targets[0].value).endswith("document"):
+                v = n.value
+                if isinstance(v, ast.Call) and isinstance(v.func, ast.Attribute) and v.func.attr == "astext" and isinstance(v.func.value, ast.Subscript) and is_const(v.func.value.slice, 0) and unparse(v.func.value.value).endswith("document"):
+                    return True
+        return False
+
+    return corpus.cache("c14-doctitle-fact", make)
+
+
+def _reads_title_attr(e: ast.expr, roots: dict[str, str]) -> bool:
+    """``<root>["title"]`` / ``<root>.get("title"[, d])``."""
+    if isinstance(e, ast.Subscript) and is_const(e.slice, "title") and unparse(e.value) in roots:
+        return True
+    return isinstance(e, ast.Call) and isinstance(e.func, ast.Attribute) and e.func.attr == "get" and unparse(e.func.value) in roots and bool(e.args) and is_const(e.args[0], "title")
+
+
+def _is_root_first_child(e: ast.expr, fi: FunctionInfo, roots: dict[str, str]) -> bool:
+    if isinstance(e, ast.Name) and not fi.is_lambda:
+        defs = [n for n in fi.local_nodes() if isinstance(n, ast.Assign) and len(n.targets) == 1 and _is_name(n.targets[0], e.id)]
+        # the first binding of the name (a later rebinding to a copy is another value)
+        defs.sort(key=lambda n: n.lineno)
+        if not defs:
+            return False
+        e = defs[0].value
+    if isinstance(e, ast.Subscript) and is_const(e.slice, 0):
+        base = e.value.value if isinstance(e.value, ast.Attribute) and e.value.attr == "children" else e.value
+        return unparse(base) in roots
+    return False
+
+
+def _compared_with_derived_title(corpus: Corpus, fi: FunctionInfo, call: ast.Call) -> bool:
+    """``<root>.get("title") != <root>[0].astext()``: the attribute docutils' DocTitle derived from the same node by the
+    same expression, so both sides carry the same message text in either run - the comparison only tells who set the
+    attribute and its outcome does not depend on suppression."""
+    p = parent(call)
+    if not (isinstance(p, ast.Compare) and len(p.ops) == 1 and isinstance(p.ops[0], (ast.Eq, ast.NotEq))):
+        return False
+    other = p.comparators[0] if p.left is call else p.left
+    roots = {k: v for k, v in _content_containers(fi).items() if v.startswith("the document root")}
+    if not _reads_title_attr(other, roots):
+        return False
+    recv = call.func.value  # type: ignore[union-attr]
+    if isinstance(recv, ast.Name):
+        # the binding that reaches this use
+        defs = sorted((n for n in fi.local_nodes() if isinstance(n, ast.Assign) and len(n.targets) == 1 and _is_name(n.targets[0], recv.id) and n.lineno < call.lineno), key=lambda n: n.lineno)
+        if not defs or not _is_root_first_child(defs[-1].value, fi, roots):
+            return False
+    elif not _is_root_first_child(recv, fi, roots):
+        return False
+    return _doctitle_fact(corpus)
+
+
+def _is_emptiness_guard(n: ast.Call, base: str) -> bool:
+    """``len(X) and isinstance(X[k], K)`` (K no message class): the count only protects the subscript.  If X holds
+    nothing but message nodes the class test fails just as the guard fails on the empty list of the suppressed run,
+    so the count adds no dependence of its own (the positional class test is judged for itself)."""
+    top: ast.AST = n
+    p = parent(top)
+    if isinstance(p, ast.Compare) and len(p.ops) == 1 and p.left is top and isinstance(p.comparators[0], ast.Constant) and (
+        (isinstance(p.ops[0], (ast.Gt, ast.NotEq)) and p.comparators[0].value == 0) or (isinstance(p.ops[0], ast.GtE) and p.comparators[0].value == 1)
+    ):
+        top, p = p, parent(p)
+    if not (isinstance(p, ast.BoolOp) and isinstance(p.op, ast.And)):
+        return False
+    idx = next(i for i, v in enumerate(p.values) if v is top)
+    later = p.values[idx + 1:]
+    if not later:
+        return False
+    for v in p.values[:idx] + later:
+        mentions = any(unparse(x) == base for x in ast.walk(v) if isinstance(x, (ast.Name, ast.Attribute)))
+        if not mentions:
+            continue
+        core, _neg = _strip_not(v)
+        ok = isinstance(core, ast.Call) and dotted(core.func) == "isinstance" and len(core.args) == 2 and isinstance(core.args[0], ast.Subscript) and isinstance(core.args[0].slice, ast.Constant) and unparse(core.args[0].value) in (base, base + ".children") and not _mentions_sm(core.args[1])
+        if not ok or v in p.values[:idx]:
+            return False
+    return True
+
+
 _FOOTNOTE_REGISTRIES = ("footnotes", "autofootnotes", "symbol_footnotes")
 
 
@@ -2836,6 +2933,8 @@ def r8_messages_are_not_content(corpus: Corpus, rep: Report, tier: str):
                 rep.ok(R, k, site, "a math node: a text-only leaf")
             elif _only_in_warning_text(corpus, fi, c):
                 rep.ok(R, k, site, "only words a warning message")
+            elif _compared_with_derived_title(corpus, fi, c):
+                rep.ok(R, k, site, "only compared with document['title'], which docutils' DocTitle derived from the same node by the same expression: equal in both runs")
             else:
                 rep.violation(R, k, site, f"`{short(parent(c) if isinstance(parent(c), ast.stmt) else c, 60)}`: the text of `{recv}` includes the text of any warning attached inside it (system_message nodes are not removed first): the value differs between the suppressed and the unsuppressed run")
     rep.expect_min(R, 5, ".astext() call sites (9 on the reviewed tree)")
@@ -2889,10 +2988,45 @@ def r8_messages_are_not_content(corpus: Corpus, rep: Report, tier: str):
             if k in seen:
                 continue
             seen.add(k)
-            if filt:
+            if how == "is counted" and not filt and isinstance(n, ast.Call) and _is_emptiness_guard(n, base):
+                rep.ok(R, k, fi.module.site(n), "only guards the subscript of a positional class test against a non-message class: message nodes alone fail that test as an empty list fails the guard")
+            elif filt:
                 rep.ok(R, k, fi.module.site(n), "system_message children are filtered out first")
             else:
                 rep.violation(R, k, fi.module.site(n), f"`{short(n, 60)}`: the child list of `{base}` ({conts[base]}) {how} without leaving out system_message nodes: a warning attached there changes the decision, so suppressing it changes more than the message")
+    # (e) docutils' DocTitle derives document['title'] from the title's astext(): the docutils front end must recompute it
+    if _doctitle_fact(corpus):
+        gt = corpus.func("parsers.docutils_:Parser.get_transforms")
+        k = f"{gt.fq}|document title without warning text"
+        names = [x for r in gt.local_nodes() if isinstance(r, ast.Return) and r.value is not None for lst in ast.walk(r.value) if isinstance(lst, (ast.List, ast.Tuple)) for x in lst.elts if isinstance(x, (ast.Name, ast.Attribute))]
+        found, why = None, []
+        for x in names:
+            full = gt.module.resolve(dotted(x) or "")
+            mod, _, cname = full.rpartition(".")
+            mm = corpus.modules.get(mod)
+            ci = mm.classes.get(cname) if mm is not None else None
+            ap = ci.methods.get("apply") if ci is not None else None
+            if ap is None:
+                continue
+            stores = [n for n in ap.local_nodes() if isinstance(n, ast.Assign) and len(n.targets) == 1 and isinstance(n.targets[0], ast.Subscript) and is_const(n.targets[0].slice, "title") and unparse(n.targets[0].value) in ("self.document", "document")]
+            if not stores:
+                continue
+            prio = next((s.value for s in ci.node.body if isinstance(s, ast.Assign) and len(s.targets) == 1 and _is_name(s.targets[0], "default_priority")), None)
+            after = isinstance(prio, ast.BinOp) and isinstance(prio.op, ast.Add) and isinstance(prio.right, ast.Constant) and isinstance(prio.right.value, int) and prio.right.value > 0 and mm.resolve(dotted(prio.left) or "").endswith("frontmatter.DocTitle.default_priority")
+            if not after:
+                why.append(f"{cname} does not run after DocTitle (default_priority = {short(prio, 40) if prio is not None else 'inherited'})")
+                continue
+            clean = [s for s in stores if isinstance(s.value, ast.Call) and isinstance(s.value.func, ast.Attribute) and s.value.func.attr == "astext" and _strips_messages(ap, unparse(s.value.func.value), s.value)]
+            if clean and len(clean) == len(stores):
+                found = (ci, ap, clean[0])
+                break
+            why.append(f"{cname} stores a title text from which system_message nodes were not removed")
+        if found:
+            rep.ok(R, k, found[1].module.site(found[2]), f"{found[0].name} (after DocTitle) stores the title text of a copy without system_message nodes")
+        else:
+            rep.violation(R, k, gt.site(), "docutils' DocTitle sets document['title'] from astext() of the promoted title, warning text included, and no transform of the docutils front end recomputes it without the system_message nodes" + (": " + "; ".join(why) if why else "") + " - the title attribute (HTML <title>) differs between the suppressed and the unsuppressed run")
+    else:
+        rep.listed(R, "docutils DocTitle|document['title'] = document[0].astext()", "docutils/transforms/frontmatter.py", "not found in the installed docutils: no obligation on the front end")
     # (d) no message node on the document root once the body is rendered
     g = get_callgraph(corpus)
     try:
@@ -3178,6 +3312,28 @@ def mutants(corpus: Corpus):
             out.append(Mutant(mid, "C14.R8", tr.rel, splice(tr.src, ic.args[1], less), expect=qn))
         else:
             out.append((mid, f"{qn} has no isinstance(…, <classes incl. system_message>) over a child list"))
+    # 6e''. reverts of 51a3635 (document['title'] derived by docutils' DocTitle)
+    pd = corpus.mod("parsers.docutils_")
+    f = pd.func("Parser.get_transforms")
+    el = find_node(f, lambda n: isinstance(n, ast.Name) and n.id == "CleanDocumentTitle" and isinstance(parent(n), (ast.List, ast.Tuple)))
+    if el is not None:
+        lst = parent(el)
+        out.append(Mutant("c14-revert-51a3635-document-title-keeps-warning-text", "C14.R8", pd.rel, splice(pd.src, lst, "[" + ", ".join(unparse(x) for x in lst.elts if x is not el) + "]"), expect="document title without warning text"))
+    else:
+        out.append(("c14-revert-51a3635-document-title-keeps-warning-text", "get_transforms no longer lists CleanDocumentTitle"))
+    if "CleanDocumentTitle" in tr.classes:
+        ci = tr.classes["CleanDocumentTitle"]
+        pr = next((s for s in ci.node.body if isinstance(s, ast.Assign) and _is_name(s.targets[0], "default_priority") and isinstance(s.value, ast.BinOp)), None)
+        ap = ci.methods.get("apply")
+        lp = find_node(ap, lambda n: isinstance(n, ast.For) and _mentions_sm(n.iter)) if ap is not None else None
+        if pr is not None:
+            out.append(Mutant("c14-title-cleaner-runs-before-doctitle", "C14.R8", tr.rel, splice(tr.src, pr.value, f"{unparse(pr.value.left)} - 1"), expect="document title without warning text"))
+        if lp is not None:
+            out.append(Mutant("c14-title-cleaner-keeps-messages", "C14.R8", tr.rel, splice(tr.src, lp, "pass"), expect="CleanDocumentTitle.apply"))
+        if pr is None or lp is None:
+            out.append(("c14-title-cleaner-shape", "CleanDocumentTitle has no `default_priority = DocTitle.default_priority + k` / no loop over system_message"))
+    else:
+        out.append(("c14-title-cleaner-runs-before-doctitle", "transforms.py has no CleanDocumentTitle"))
     # 6f. the class of the new known findings, at other sites
     f = base.func("DocutilsRenderer.render_heading") if "DocutilsRenderer.render_heading" in base.functions else None
     cu = find_node(base.func("DocutilsRenderer.generate_heading_target"), lambda n: isinstance(n, ast.Call) and dotted(n.func) == "clean_astext") if "DocutilsRenderer.generate_heading_target" in base.functions else None
